@@ -11,6 +11,11 @@ GRID = st.integers(0, 16).map(lambda k: k * 0.25)
 L_PICKUP = {"mem": 0.3, "redis": 0.9, "amqp": 0.5}
 
 
+def _dur(j: dict) -> float:
+    o = j["attempts"][0]
+    return (j.get("timeout", 0) + o.get("cleanup", 0.0)) if o["k"] == "timeout" else o["sleep"]
+
+
 @st.composite
 def conc_case(draw, brokers):
     broker = draw(st.sampled_from(list(brokers)))
@@ -25,9 +30,14 @@ def conc_case(draw, brokers):
         r = draw(st.integers(0, 9))
         # an actor that ends cancelled leaves its message without a disposition; on RabbitMQ that unacked message keeps
         # occupying the server-side prefetch window, which is not the slot accounting this property is about
-        kind = "raise" if r < 2 else ("cancel" if r == 2 and broker != "amqp" else "ret")
+        kind = "raise" if r < 2 else ("cancel" if r == 2 and broker != "amqp" else ("timeout" if r == 3 else "ret"))
         j = {"id": f"j{i}", "actor": a["name"], "queue": a["queue"], "retries": 0, "store_result": False,
              "attempts": [{"k": kind, "exc": "ValueError", "text": "f", "v": i, "sleep": dur}]}
+        if kind == "timeout":
+            # the execution timeout expires; the actor may take a while to unwind (cleanup after the cancellation) and
+            # occupies its slot until it has
+            j["timeout"] = 1
+            j["attempts"][0].update({"sleep": 0.0, "extra": 5.0, "cleanup": draw(st.sampled_from([0.0, 0.25, 0.8]))})
         mode = draw(st.sampled_from(["before", "before", "burst", "after"])) if i > 0 else "before"
         if mode == "burst":
             j["enqueue_at"] = draw(st.one_of(GRID, st.integers(0, 6000).map(lambda ms: ms / 1000)))
@@ -39,7 +49,7 @@ def conc_case(draw, brokers):
             "policy": None, "worker": {"tasks_limit": tl}, "jobs": jobs}
     if broker != "mem":
         case["lat"] = draw(st.lists(st.sampled_from([0.0, 0.001, 0.003]), max_size=20))
-    total = sum(j["attempts"][0]["sleep"] for j in jobs)
+    total = sum(_dur(j) for j in jobs)
     latest = max([j.get("enqueue_at", 0.0) for j in jobs] + [0.0])
     case["horizon"] = round(latest + total + len(jobs) * (L_PICKUP[broker] + 0.2) + 6.0, 3)
     return case
@@ -76,7 +86,7 @@ def run(case: dict) -> Outcome:
         missing = [j["id"] for j in case["jobs"] if j["id"] not in started and j["id"] in tr.enqueued]
         if missing:
             out.v("stalled", f"{len(missing)} of {n} jobs never started within the bound {case['horizon']}s "
-                  f"(tasks_limit={tl}, sum of durations={sum(j['attempts'][0]['sleep'] for j in case['jobs']):.2f}s): {missing[:6]}")
+                  f"(tasks_limit={tl}, sum of durations={sum(_dur(j) for j in case['jobs']):.2f}s): {missing[:6]}")
         elif any(e.end == "running" for e in tr.execs):
             out.inconclusive = True
     # double execution (retries=0, so each job runs once)
